@@ -26,7 +26,8 @@ RULE = (
     "parse the output completely (magic 2, batch_length == len-12, CRC over exactly bytes[21:], minimal varints, record "
     "length prefixes exact, no trailing bytes) and recover base offset = first record's, last offset delta = last-first, "
     "base timestamp = first record's ms, max timestamp = max ms, record count, every record's deltas/key/value/headers "
-    "and all batch parameters. Non-trivial = >=2 records with non-monotone offsets or timestamps, or a null "
+    "and all batch parameters. One case in three is written after earlier writes failed part-way (a record with a str value "
+    "or a str header value after 300+ good bytes; the same batch on sinks raising OSError at write call 1..9). Non-trivial = >=2 records with non-monotone offsets or timestamps, or a null "
     "key/value/header part; distinct by hash of the case."
 )
 
@@ -97,6 +98,8 @@ def batch_cases(draw):
         "base_sequence": draw(int_strategy(-(2**31), 2**31 - 1)),
         "attributes": draw(int_strategy(-(2**15), 2**15 - 1)),
         "records": records,
+        # one case in four is written after earlier writes FAILED part-way (see failed_write_prelude)
+        "prelude": draw(st.sampled_from([None, None, None, None, None, None, "bad-value", "bad-header", "sink-fails"])),
     }
 
 
@@ -154,10 +157,50 @@ def aligned(case: dict, target: int) -> dict:
     return case
 
 
+def failed_write_prelude(kind: str, nb) -> int:
+    """Writes that fail part-way, as a producer sees them when an application hands over a malformed record or the
+    connection drops: what they leave behind must not leak into the next batch.  -> number of failed writes
+      bad-value   one record with a 300-byte key and 40 headers whose VALUE is a str (fails when the value is written)
+      bad-header  three good records, then one whose last header value is a str
+      sink-fails  the batch under test itself, on sinks that raise OSError at the 1st, 2nd, 3rd .. write call"""
+    import dataclasses
+
+    from kio.records.schema import Record, RecordHeader
+    from kio.records.writers import write_batch, write_new_batch
+
+    from ..streams import FaultySink
+
+    n = 0
+    good = Record(attributes=0, timestamp=EPOCH, offset=0, key=b"K" * 300, value=b"V" * 500,
+                  headers=tuple(RecordHeader(key=b"h%d" % i, value=b"x" * 20) for i in range(40)))
+    if kind == "bad-value":
+        bads = [dataclasses.replace(nb, records=(dataclasses.replace(good, value="not-bytes"),))]
+    elif kind == "bad-header":
+        bad = dataclasses.replace(good, headers=good.headers[:-1] + (RecordHeader(key=b"last", value="not-bytes"),))
+        bads = [dataclasses.replace(nb, records=(good, good, good, bad))]
+    else:
+        bads = []
+        for k in (0, 1, 2, 3, 5, 8):
+            for fn in (write_new_batch, write_batch):
+                try:
+                    fn(FaultySink(k, OSError("connection reset")), nb)
+                except Exception:
+                    n += 1
+    for b in bads:
+        for fn in (write_new_batch, write_batch):
+            try:
+                fn(io.BytesIO(), b)
+            except Exception:
+                n += 1
+    return n
+
+
 def check(case) -> list[tuple[str, str]]:
     from kio.records.writers import write_batch, write_new_batch
 
     nb = build(case)
+    if case.get("prelude"):
+        failed_write_prelude(case["prelude"], nb)
     outs = []
     for fn in (write_new_batch, write_batch):
         buf = io.BytesIO()
@@ -258,6 +301,8 @@ def minimize(case, sig):
         for k in ("producer_id", "producer_epoch", "partition_leader_epoch", "base_sequence", "attributes"):
             if cur[k] != 0:
                 cands.append({**cur, k: 0})
+        if cur.get("prelude"):
+            cands.append({**cur, "prelude": None})
         for i, r in enumerate(cur["records"]):
             for k, v in (("key", None), ("value", None), ("headers", []), ("attributes", 0), ("tz", 0), ("offset", 0), ("us", 0)):
                 if r.get(k, v) != v:
@@ -289,6 +334,8 @@ def _worker(task):
             case = aligned(case, (4096, 8192, 16384, 32768, 65536, 131072, 196608)[len(case["records"]) % 7])
             rep.labels["aligned_section"] += 1
         rep.evaluations += 1
+        if case.get("prelude"):
+            rep.labels["after_failed_write"] += 1
         rep.labels[f"records_{min(len(case['records']), 4)}{'+' if len(case['records']) > 4 else ''}"] += 1
         if any((r["key"] and len(r["key"]) >= 16384) or (r["value"] and len(r["value"]) >= 16384) for r in case["records"]):
             rep.labels["large_key_or_value"] += 1
